@@ -1,5 +1,5 @@
 CONSTANTS
-  Accts = {"a", "b", "owner0", "carol"}
+  Accts = {"a", "b", "c", "owner0", "carol"}
 INIT Init
 NEXT Next
 CHECK_DEADLOCK FALSE
